@@ -57,6 +57,16 @@ func c13(c *Ctx) {
 	if f := c.mustFn(r, "embedded/sql.(*Engine).execPreparedStmts"); f != nil {
 		commits := sites(f, callTo(sqlTxT+"Commit"))
 		c.check(len(commits) >= 1, r, fnName(f)+":commit-sites", c.pos(f.Pos()), fmt.Sprintf("%d commit sites", len(commits)), "execPreparedStmts no longer commits")
+		// an explicit BEGIN ... block is committed by its COMMIT statement only: every commit the statement loop performs
+		// on its own is on the IsExplicitCloseRequired()==false edge (implicit / auto-commit transactions)
+		implicit := whenCond(false, atomIsCall(sqlTxT+"IsExplicitCloseRequired"))
+		for i, cm := range commits {
+			cm := cm
+			q := &pathQ{fn: f, fromEntry: true, to: func(x ssa.Instruction) bool { return x == cm }, barrier: implicit}
+			w := q.bypass()
+			c.check(w == nil, r, fmt.Sprintf("%s:commit#%d:only-implicit-transactions", fnName(f), i), c.pos(cm.Pos()), "dominated by IsExplicitCloseRequired()==false",
+				"the statement loop can commit a transaction that was opened with BEGIN and not yet closed by COMMIT (what was executed so far becomes durable although the block fails or is rolled back): "+c.witnessStr(w))
+		}
 		for i, cm := range commits {
 			okk, d := errHandled(cm)
 			c.check(okk, r, fmt.Sprintf("%s:commit#%d:error-propagated", fnName(f), i), c.pos(cm.Pos()), d, "a failed COMMIT is reported as success: "+d)
